@@ -176,6 +176,76 @@ def delete(ctx):
     ctx.require(all(any(s is y for y in ast.walk(loops[0])) for s in resets) and bool(resets), q, 'spent flags are reset outside the loop over the deleted transaction\'s inputs', fn)
 
 
+def _is_commit(c):
+    return isinstance(c, ast.Call) and isinstance(c.func, ast.Attribute) and c.func.attr in ('_commit', 'commit')
+
+
+def _is_session_write(c):
+    if not isinstance(c, ast.Call) or not isinstance(c.func, ast.Attribute):
+        return False
+    a, base = c.func.attr, unparse(c.func.value)
+    if a in ('add', 'merge') and base.endswith('session'):
+        return True
+    if a == 'delete' and ('query' in base or base.endswith('session')):
+        return True
+    return a == 'update' and 'query' in base
+
+
+@PROP.obligation('C08.commit-paths', canaries=[
+    mut.replace_stmt(W, 'WalletTransaction.delete', 'self.hdwallet._commit()', 'if key:\n    self.hdwallet._commit()', 'delete() commits only when a key still points at the transaction', nth=0),
+])
+def commit_paths(ctx):
+    """Every method of wallets.py that writes through the session (add / merge / delete / query.update) and commits at all, commits on every
+    path from each write to a normal return (must-pass-through on the control-flow graph; exception paths and the false branch of a
+    `commit` mode flag excepted): a write left pending is lost when the session is closed, so the ledger after reopening
+    disagrees with the one the caller saw."""
+    from ..cfg import node_asts
+    m = ctx.repo.mod(W)
+    n_fn = n_writes = 0
+    for q, f in sorted(m.functions.items()):
+        calls = [c for c in ast.walk(f) if isinstance(c, ast.Call)]
+        if not any(_is_commit(c) for c in calls) or not any(_is_session_write(c) for c in calls):
+            continue
+        n_fn += 1
+        g = build_cfg(f)
+        params = set(a.arg for a in f.args.args + f.args.kwonlyargs)
+        # mode flags: locals that only ever hold a boolean constant (commit = True / False chosen from the arguments)
+        asg = {}
+        for x in ast.walk(f):
+            if isinstance(x, ast.Assign) and len(x.targets) == 1 and isinstance(x.targets[0], ast.Name):
+                asg.setdefault(x.targets[0].id, []).append(isinstance(x.value, ast.Constant) and isinstance(x.value.value, bool))
+        params |= set(k for k, v in asg.items() if all(v))
+        commits = set(n.id for n in g.nodes if any(_is_commit(c) for frag in node_asts(n) for c in ast.walk(frag)))
+        writes = [n.id for n in g.nodes if any(_is_session_write(c) for frag in node_asts(n) for c in ast.walk(frag))]
+        flag_false = set()
+        for n in g.nodes:
+            if n.kind == 'test' and isinstance(n.ast, ast.Name) and n.ast.id in params:
+                flag_false |= set(g.false_edge(n.id))
+        for w in writes:
+            n_writes += 1
+            if w in commits:
+                continue
+            seen = g.reach([w], blocked_nodes=commits, blocked_edges=flag_false, skip_exc=True)
+            if g.exit_return in seen:
+                p = g.path(seen, g.exit_return)
+                ctx.violate('%s:%s' % (W, q), 'the session write `%s` reaches a normal return without a commit (path %s)' % (norm(g[w].ast)[:70].split('\n')[0], g.describe_path(p)[:120]), g[w].ast,
+                            'the change stays pending in the session: it is visible to later queries of this session but rolled back when the wallet is closed - after reopening the ledger differs')
+    ctx.saw('%d methods that write through the session and commit, %d write sites: each write is followed by a commit on every normal path' % (n_fn, n_writes))
+    ctx.floor(n_fn, 12, 'methods that write and commit')
+
+
+@PROP.obligation('C08.scope-predicates', canaries=[
+    mut.replace_expr(W, 'Wallet.utxos_update', 'DbTransaction.network_name == network', 'DbTransaction.network_name == self.network.name', 'rescan of another network wipes the unspent outputs of the default network', nth=0),
+    mut.replace_expr(W, 'Wallet._balance_update', 'DbTransaction.network_name == network', 'DbTransaction.network_name == self.network.name', 'balance of another network computed from the default network'),
+])
+def scope_predicates(ctx):
+    """Every query of a Wallet method that binds network / account_id / witness_type filters the column of that meaning with the
+    method's own variable, never with the wallet default: the ledger operations (rescan reset, balance, unspent list, input selection)
+    of one network or account do not touch or read the rows of another."""
+    from .common_scope import scope_predicates as run
+    run(ctx, W, 'a rescan / balance / selection for one network or account reads or rewrites the rows of the wallet default: outputs of the other network are flagged spent and never restored', 35)
+
+
 @PROP.obligation('C08.balance-reset', canaries=[
     mut.replace_stmt(W, 'Wallet._balance_update', "b['balance'] = 0", 'pass', 'stale totals survive when nothing is unspent'),
 ])
